@@ -30,6 +30,10 @@ pub struct Cfg {
     /// source packets: the tick is target / SOURCE packets and every packet, repair ones included, takes a slot)
     #[serde(default)]
     pub fec: u8,
+    /// content encoding of the object (0 none, 3 gzip): the pacing tick divides the target by the symbols of the
+    /// TRANSFER-encoded object
+    #[serde(default)]
+    pub cenc: u8,
 }
 
 #[derive(Serialize, Deserialize, Clone, Debug)]
@@ -57,6 +61,8 @@ fn objects(c: &Cfg) -> Vec<ObjSpec> {
     let mut o = ObjSpec::simple(c.symbols * 4, 1);
     o.oti = Some(if c.fec == 1 { OtiSpec::new(Scheme::Rs28, 4, 2, 1, true) } else { OtiSpec::new(Scheme::NoCode, 4, 2, 0, true) });
     o.prio = 1;
+    o.cenc = c.cenc;
+    o.text = c.cenc != 0;
     o.start_ms = c.start.map(|t| t * TICK as i64);
     o.carousel = match c.carousel {
         1 => Some(Carousel::Delay(0)),
@@ -141,9 +147,10 @@ pub fn run_case(case: &Case, g: &mut G) -> Option<(String, String)> {
         }
         sys.apply(&Ev::Publish);
         let toi = sys.toi_of[0].unwrap();
-        let n = c.symbols.max(1); // SOURCE packets per transfer (an empty object is one packet): the pacing tick is target / n
+        // SOURCE packets per transfer (an empty object is one packet): the pacing tick is target / n
+        let n = if c.cenc != 0 { (cat[0].desc(None).map(|d| d.transfer_length as usize).unwrap_or(0)).div_ceil(4).max(1) } else { c.symbols.max(1) };
         // all packets of a transfer (one repair packet per block of 2 under Reed-Solomon)
-        let n_tot = if c.fec == 1 && c.symbols > 0 { c.symbols + c.symbols.div_ceil(2) } else { n };
+        let n_tot = if c.fec == 1 && c.symbols > 0 { n + n.div_ceil(2) } else { n };
         // reference state
         let mut gate_ms: Option<i64> = c.start.map(|t| t * TICK as i64);
         let mut poll_ends: Vec<(usize, u64)> = Vec::new(); // (log index after the drain, now)
@@ -432,13 +439,16 @@ pub fn configs() -> Vec<Cfg> {
             for target in 0..6u8 {
                 for symbols in [0usize, 1, 3] {
                     for second in [false, true] {
-                        v.push(Cfg { start, carousel, target, symbols, second, fdt_carousel: 0, fec: 0 });
+                        v.push(Cfg { start, carousel, target, symbols, second, fdt_carousel: 0, fec: 0, cenc: 0 });
                         if !second && target != 0 && start != Some(-2) {
-                            v.push(Cfg { start, carousel, target, symbols, second, fdt_carousel: 0, fec: 1 });
+                            v.push(Cfg { start, carousel, target, symbols, second, fdt_carousel: 0, fec: 1, cenc: 0 });
+                            if symbols == 3 && carousel == 0 && start != Some(0) {
+                                v.push(Cfg { start, carousel, target, symbols, second, fdt_carousel: 0, fec: 0, cenc: 3 });
+                            }
                         }
                         if !second && target == 0 && start != Some(-2) {
                             for fdt_carousel in 1..5u8 {
-                                v.push(Cfg { start, carousel, target, symbols, second, fdt_carousel, fec: 0 });
+                                v.push(Cfg { start, carousel, target, symbols, second, fdt_carousel, fec: 0, cenc: 0 });
                             }
                         }
                     }
